@@ -179,17 +179,27 @@ _FORBIDDEN = {
 
 
 def explore(run, bound=None, max_exec=None, menu=(0.5,)):
-    """Stateless depth-first exploration of the choice tree of `run`.
+    """Stateless exploration of the choice tree of `run`, in order of the number of DEVIATIONS from the default answer
+    (alternative 0): first the execution without deviation, then all with one, then all with two ... (iterative
+    deviation bounding; within one deviation count depth first).  Every execution runs to completion.
 
     run(rng) -> observation (any).  Yields (rng, observation) for every complete execution.
-    bound: maximal number of deviations from alternative 0 (None = unbounded = exhaustive).
-    Returns via generator; sets explore.capped when max_exec is hit.
+    bound: maximal number of deviations (None = unbounded = exhaustive).
+    When max_exec is hit, explore.capped is set and explore.completed_bound is the largest deviation count whose
+    executions were ALL covered (what is fully covered below the cap); it is None after an exhaustive exploration.
     """
-    stack = [[]]
+    buckets = {0: [[]]}
     n = 0
     capped = False
-    while stack:
-        prefix = stack.pop()
+    completed = None
+    while True:
+        for k in [k for k, v in buckets.items() if not v]:
+            del buckets[k]
+        if not buckets:
+            break
+        d = min(buckets)  # children only ever go to d + 1, so d never decreases
+        explore.current_bound = d
+        prefix = buckets[d].pop()
         rng = ScriptedGenerator(prefix, menu=menu)
         obs = run(rng)
         if rng.pos < len(prefix):
@@ -198,19 +208,22 @@ def explore(run, bound=None, max_exec=None, menu=(0.5,)):
             )
         n += 1
         yield rng, obs
-        if max_exec is not None and n >= max_exec:
-            capped = bool(stack)
-            if capped:
-                break
         ch = rng.choices
-        dev = sum(1 for c in ch[: len(prefix)] if c != 0)
-        # children: deviate at any point after the prefix
-        for i in range(len(ch) - 1, len(prefix) - 1, -1):
-            if bound is not None and dev + 1 > bound:
+        if bound is None or d + 1 <= bound:
+            nxt = buckets.setdefault(d + 1, [])
+            # children: deviate at any point after the prefix (each child has exactly one more deviation)
+            for i in range(len(ch) - 1, len(prefix) - 1, -1):
+                for alt in range(rng.points[i].n - 1, 0, -1):
+                    nxt.append(ch[:i] + [alt])
+        if max_exec is not None and n >= max_exec:
+            capped = any(buckets.values())
+            if capped:
+                completed = d - 1 if buckets.get(d) else d
                 break
-            for alt in range(rng.points[i].n - 1, 0, -1):
-                stack.append(ch[:i] + [alt])
     explore.capped = capped
+    explore.completed_bound = completed if capped else None
 
 
 explore.capped = False
+explore.completed_bound = None
+explore.current_bound = 0
